@@ -57,6 +57,28 @@ class _Gen:
         return self.us.pop(0)
 
 
+class patched:
+    """Class-level patch that restores the class exactly: an attribute the class inherited is removed
+    again (re-assigning the inherited object would pin a copy onto the subclass and hide later patches of
+    the base class, e.g. the scripted generators other suites install on BaseRandom)."""
+
+    def __init__(self, cls, name, value):
+        self.cls, self.name, self.value = cls, name, value
+
+    def __enter__(self):
+        self.own = self.name in self.cls.__dict__
+        self.saved = self.cls.__dict__.get(self.name)
+        setattr(self.cls, self.name, self.value)
+        return self
+
+    def __exit__(self, *a):
+        if self.own:
+            setattr(self.cls, self.name, self.saved)
+        else:
+            delattr(self.cls, self.name)
+        return False
+
+
 def build(seed, n):
     """Returns (requests, judges): judges[i](answer) -> None or a text saying how the real code differs."""
     import epsie.proposals as P
@@ -281,17 +303,14 @@ def build(seed, n):
             us_f.append(u)
             us_r.append(Fraction(math.log(u)))
         gen = _Gen(us_f)
-        saved = ParallelTemperedChain.random_generator
-        ParallelTemperedChain.random_generator = property(lambda self, gen=gen: gen)
         try:
-            pt.swap_temperatures()
+            with patched(ParallelTemperedChain, 'random_generator', property(lambda self, gen=gen: gen)):
+                pt.swap_temperatures()
             idx = [int(v) for v in numpy.atleast_1d(pt._temperature_swaps[0]['swap_index'])]
             ars = [float(v) for v in numpy.atleast_1d(pt._temperature_acceptance[0]['acceptance_ratio'])]
             err = None
         except Exception as ex:      # noqa: BLE001
             err = repr(ex)
-        finally:
-            ParallelTemperedChain.random_generator = saved
 
         def j(ans, idx=None if err else idx, ars=None if err else ars, gen=gen, err=err, nus=len(us_r)):
             if err:
@@ -433,17 +452,14 @@ def build(seed, n):
         fx['k'] = kk
         fx['_state'] = numpy.array(cur)
         cg = _CG(chosen)
-        saved_rg = P.NestedTransdimensional.random_generator
-        saved_mj = mp.jump
-        P.NestedTransdimensional.random_generator = property(lambda self, cg=cg: cg)
         mp.jump = lambda d, newk=newk: {'k': newk}
         try:
-            out = ntp._jump(dict(fx))
+            with patched(P.NestedTransdimensional, 'random_generator', property(lambda self, cg=cg: cg)):
+                out = ntp._jump(dict(fx))
             err = None
         except Exception as ex:      # noqa: BLE001
             err = repr(ex)
         finally:
-            P.NestedTransdimensional.random_generator = saved_rg
             del mp.__dict__['jump']
 
         def j(ans, out=None if err else out, fx=fx, cur=cur, cg=cg, err=err, newk=newk):
